@@ -45,6 +45,9 @@ func genSchema(r *gen.Rand) schema {
 		q.Fields = append(q.Fields, gfield{Name: "settings", Type: "Settings", File: f})
 	}
 	s.Types = append([]gtype{q}, s.Types...)
+	if r.Chance(1, 2) {
+		s.Types = append(s.Types, gtype{Name: "Subscription", File: "a.graphqls", Fields: []gfield{{Name: "ticks", Type: "Int", File: "a.graphqls"}}})
+	}
 	return s
 }
 
@@ -130,13 +133,13 @@ func evolve(r *gen.Rand, s schema, addsOnly bool) (schema, []evolution) {
 			evs = append(evs, evolution{"move-field", t.Name + "." + t.Fields[j].Name + " " + t.Fields[j].File + " -> " + nf})
 			t.Fields[j].File = nf
 		case 6: // the fields of a type stop being resolvers; the type stays
-			if ti == 0 || t.Plain || hasCaseTwins(t) {
+			if ti == 0 || t.Plain || hasCaseTwins(t) || t.Name == "Subscription" {
 				continue // (gqlgen binds struct fields case-insensitively: twins stay resolvers whatever the schema says)
 			}
 			t.Plain = true
 			evs = append(evs, evolution{"fields-stop-being-resolvers", t.Name})
-		case 5: // remove a type (never Query)
-			if ti == 0 || len(s.Types) < 3 {
+		case 5: // remove a type (never a root type)
+			if ti == 0 || len(s.Types) < 3 || t.Name == "Subscription" {
 				continue
 			}
 			name := t.Name
